@@ -709,6 +709,7 @@ func (r *Router) Find(method, path string, c Context) {
 			}
 		}
 
+	Backtrack:
 		// Let's backtrack to the first possible alternative node of the decision path
 		nk, ok := backtrackToNextNodeKind(anyKind)
 		if !ok {
@@ -718,8 +719,9 @@ func (r *Router) Find(method, path string, c Context) {
 		} else if nk == anyKind {
 			goto Any
 		} else {
-			// Not found
-			break
+			// We came back from an any node, so every kind of child of the current node has been tried.
+			// Keep backtracking: a node further up the decision path may still have an untried alternative.
+			goto Backtrack
 		}
 	}
 
